@@ -19,6 +19,10 @@ class Abort(BaseException):
     ``Exception`` cannot swallow it."""
 
 
+class Misaligned(BaseException):
+    """A re-execution of a path did not repeat the recorded decisions (non-deterministic harness or code under test)."""
+
+
 class BoundExceeded(Exception):
     """Path cap hit -- the exploration is inconclusive."""
 
@@ -309,6 +313,13 @@ class SymReal:
         # Python truthiness of a number: x != 0 (e.g. `table.get(phase) or default`)
         return bool(SymBool(s.t != 0))
 
+    def __round__(s, n=None):
+        # contract model of round(): the nearest multiple of 10^-n (exact ties go upward, Python rounds them to even - ties are outside the
+        # model; replays are concrete).  Present so that code which buckets / memoises on rounded values stays inside the engine.
+        k = z3.RealVal(10) ** (n or 0) if (n or 0) >= 0 else z3.RealVal(1) / (z3.RealVal(10) ** (-n))
+        k = z3.simplify(k)
+        return SymReal(z3.ToReal(z3.ToInt(s.t * k + z3.RealVal("1/2"))) / k)
+
     def __float__(s):
         raise TypeError("symbolic value would be concretised (float())")
 
@@ -473,15 +484,28 @@ class Explorer:
         return taken
 
     # -- decisions --------------------------------------------------------------------------------
+    def _tick(self, taken):
+        """A decision that needs no solver (constant after simplification / already decided on this path) still takes one slot of the
+        trace.  The trace is then aligned by CALL COUNT: whether such a shortcut applies depends on the syntactic form z3.simplify
+        happens to produce, which is not stable between two executions of the same path (argument order follows AST ids) - with
+        shortcuts outside the trace, a re-execution could consume the recorded decisions one slot off and walk an infeasible path
+        (found with C09 S/replaced/*: a candidate that did not reproduce)."""
+        k = len(self.trace)
+        if k < len(self.prefix) - 1 and self.prefix[k][0] != taken:
+            # the recorded run took the other side here although this side is forced now: the executions differ
+            raise Misaligned("decision %d: recorded %r, now forced %r" % (k, self.prefix[k][0], taken))
+        self.trace.append((taken, False))
+        return taken
+
     def decide(self, cond):
         cond = z3.simplify(cond)
         if z3.is_true(cond):
-            return True
+            return self._tick(True)
         if z3.is_false(cond):
-            return False
+            return self._tick(False)
         cid = cond.get_id()
         if cid in self.cache:
-            return self.cache[cid]
+            return self._tick(self.cache[cid])
         if len(self.trace) < len(self.prefix):
             return self._replay(cond)
         feas = {}
@@ -514,12 +538,14 @@ class Explorer:
         """Constrain the current path (no fork); prune it when infeasible."""
         cond = z3.simplify(tobool(cond))
         if z3.is_true(cond):
+            self._tick(True)
             return
         if z3.is_false(cond):
             raise Abort()
         cid = cond.get_id()
         if cid in self.cache:
             if self.cache[cid]:
+                self._tick(True)
                 return
             raise Abort()
         if len(self.trace) < len(self.prefix):
@@ -736,6 +762,8 @@ class Explorer:
                     self.stats.paths += 1
                 except Abort:
                     self.stats.aborted += 1
+                except Misaligned as e:
+                    raise RuntimeError("re-execution of a path diverged from its recorded decisions (%s): inconclusive" % e) from None
                     continue
         finally:
             CUR = prev
